@@ -87,13 +87,17 @@ func (p Polygon) Validate() error {
 				return nil
 			}
 			if i > 0 && j > 0 { // Check is skipped if the outer ring is involved.
-				// It's ok to access the first coord (index 0), since we've
-				// already checked to ensure that no ring is empty.
-				iStart := p.rings[i].Coordinates().GetXY(0)
-				jStart := p.rings[j].Coordinates().GetXY(0)
-				nestedFwd := relatePointToRing(iStart, p.rings[j]) == interior
-				nestedRev := relatePointToRing(jStart, p.rings[i]) == interior
+				// Rings are allowed to touch at a point, so the start of a
+				// ring may be on the other ring (in which case it says
+				// nothing about nesting). Control points are checked until
+				// one is found that's unambiguously inside or outside the
+				// other ring.
+				nestedFwd := relateRingToRing(p.rings[i], p.rings[j]) == interior
+				nestedRev := relateRingToRing(p.rings[j], p.rings[i]) == interior
 				if nestedFwd || nestedRev {
+					// It's ok to access the first coord (index 0), since
+					// we've already checked to ensure that no ring is empty.
+					iStart := p.rings[i].Coordinates().GetXY(0)
 					return violateRingNested.errAtXY(iStart)
 				}
 			}
@@ -148,6 +152,21 @@ func (p Polygon) Validate() error {
 		return violateInteriorConnected.err()
 	}
 	return nil
+}
+
+// relateRingToRing gives the side of the other ring that the first control
+// point of ring not on the boundary of other is on. If all of ring's control
+// points are on the boundary of other, then boundary is returned. It assumes
+// that other is actually a ring (i.e. closed and simple).
+func relateRingToRing(ring, other LineString) side {
+	seq := ring.Coordinates()
+	n := seq.Length()
+	for i := 0; i < n; i++ {
+		if relate := relatePointToRing(seq.GetXY(i), other); relate != boundary {
+			return relate
+		}
+	}
+	return boundary
 }
 
 func validateRing(r LineString) error {
